@@ -351,6 +351,10 @@ func (tdsChan *Channel) Login(ctx context.Context, config *LoginConfig) (err err
 		return fmt.Errorf("expected capability package, received %T instead: %v", pkg, pkg)
 	}
 
+	// A value mask without any byte is skipped below like a capability
+	// type that was not requested. If that is all the server returned it
+	// granted nothing - the same answer as masks of zeroes.
+	granted := false
 	for capType, capTypeCaps := range capsResponse.Capabilities {
 		// Skip over capability types that aren't requested
 		if len(capTypeCaps.capabilities) == 1 {
@@ -369,6 +373,11 @@ func (tdsChan *Channel) Login(ctx context.Context, config *LoginConfig) (err err
 		if allZeroed {
 			return fmt.Errorf("server did not understand capability requests for %s, aborting", capType)
 		}
+		granted = true
+	}
+
+	if !granted {
+		return errors.New("server did not return any capabilities, aborting")
 	}
 
 	// Override requested capabilities with server response
